@@ -88,13 +88,24 @@ func (l *Link) Inject(proto tcpip.NetworkProtocolNumber, data []byte, remote tcp
 	b := append([]byte(nil), data...)
 	var vv buffer.VectorisedView
 	if l.ViewSize > 0 && len(b) > l.ViewSize {
+		// ViewSize == 1 selects the fd-based link's own buffer layout; any other value
+		// cuts the packet into equal views of that size
+		sizes := []int{l.ViewSize}
+		if l.ViewSize == 1 {
+			sizes = []int{128, 256, 256, 512, 1024, 2048, 4096, 8192, 16384, 32768}
+		}
 		var views []buffer.View
-		for i := 0; i < len(b); i += l.ViewSize {
-			e := i + l.ViewSize
+		for i, k := 0, 0; i < len(b); k++ {
+			sz := sizes[len(sizes)-1]
+			if k < len(sizes) {
+				sz = sizes[k]
+			}
+			e := i + sz
 			if e > len(b) {
 				e = len(b)
 			}
 			views = append(views, buffer.View(b[i:e]))
+			i = e
 		}
 		vv = buffer.NewVectorisedView(len(b), views)
 	} else {
